@@ -2,13 +2,15 @@ module verifharness
 
 go 1.21
 
-require github.com/go-gts/gts v0.0.0
+require (
+	github.com/go-gts/gts v0.0.0
+	github.com/go-pars/pars v1.1.6
+)
 
 require (
 	github.com/go-ascii/ascii v1.0.3 // indirect
 	github.com/go-flip/flip v1.1.0 // indirect
 	github.com/go-gts/flags v0.0.12 // indirect
-	github.com/go-pars/pars v1.1.6 // indirect
 	github.com/go-wrap/wrap v1.0.3 // indirect
 )
 
